@@ -427,7 +427,9 @@ func Items(r *rand.Rand, j *gen.Journal) []Item {
 		}
 		items = append(items, Item{Dir: d})
 		if r.Intn(12) == 0 {
-			p := []string{"x.knut", "./sub/y.knut", "prices/USD.prices", "../up.knut", "with space.knut", "Zürich/現金.knut", ""}[r.Intn(7)]
+			incs := []string{"x.knut", "./sub/y.knut", "prices/USD.prices", "../up.knut", "with space.knut", "Zürich/現金.knut", "",
+				"100%.knut", "%s/%d.knut", "a%20b.knut", "back\\slash.knut", "tab\there.knut", "#hash.knut", "// c.knut", "it's.knut", "*.knut", "$HOME/x.knut", "~/x.knut"}
+			p := incs[r.Intn(len(incs))]
 			items = append(items, Item{IsInclude: true, Include: p})
 		}
 	}
